@@ -18,7 +18,7 @@ import (
 	"verif/harness/stats"
 )
 
-const ruleC11 = "rapid-generated scripts for a scripted http.RoundTripper under virtual time: 1..6 attempts, each a transport error | a response rejected by the validator | a stream from the SSE grammar with boosted endings (field-less last block: blank lines, comment, unknown field; in mid-line; exactly at a block end) x end kind (clean EOF | injected read error | request context cancelled while the body read is blocked, at any chunk boundary incl. mid-line | deadline) x MaxRetries (-1, 0, 1..3) x request body kind (none | NoBody | with GetBody | without GetBody | GetBody failing at its j-th call) x cancellation during a backoff wait x request context plain | carrying a cancellation cause (WithCancelCause / WithTimeoutCause), the transport then reporting context.Cause(ctx) as net/http does since Go 1.23, or ctx.Err(). Oracle: a reference walk over the script (from the doc comments of Connect/Backoff) gives the expected number of attempts, the cause passed to each OnRetry and the class of Connect's result: never nil; context done => errors.Is(ctx.Err()), not a *ConnectionError, no OnRetry after the cancellation; validator / body-reset failure => *ConnectionError at once; otherwise *ConnectionError wrapping the last attempt's cause (read error as itself, ErrUnexpectedEOF only for a clean end in mid-line, io.EOF for a clean terminated end). Non-trivial: some stream's last block is field-less, or a read error / cancellation arrives in mid-line. Distinct: FNV-64 of the JSON of the case."
+const ruleC11 = "rapid-generated scripts for a scripted http.RoundTripper under virtual time: 1..6 attempts, each a transport error | a response rejected by the validator (a 503; or, for 12% of the stream attempts, another status or one of eight Content-Type values, judged by the harness's status-only validator or - 30% of the scripts - by sse.DefaultValidator) | a stream from the SSE grammar with boosted endings (field-less last block: blank lines, comment, unknown field; in mid-line; exactly at a block end) x end kind (clean EOF | injected read error | request context cancelled while the body read is blocked, at any chunk boundary incl. mid-line | deadline) x MaxRetries (-1, 0, 1..3) x request body kind (none | NoBody | with GetBody | without GetBody | GetBody failing at its j-th call) x cancellation during a backoff wait x request context plain | carrying a cancellation cause (WithCancelCause / WithTimeoutCause), the transport then reporting context.Cause(ctx) as net/http does since Go 1.23, or ctx.Err(). Oracle: a reference walk over the script (from the doc comments of Connect/Backoff) gives the expected number of attempts, the cause passed to each OnRetry and the class of Connect's result: never nil; context done => errors.Is(ctx.Err()), not a *ConnectionError, no OnRetry after the cancellation; validator / body-reset failure => *ConnectionError at once; otherwise *ConnectionError wrapping the last attempt's cause (read error as itself, ErrUnexpectedEOF only for a clean end in mid-line, io.EOF for a clean terminated end). Non-trivial: some stream's last block is field-less, or a read error / cancellation arrives in mid-line. Distinct: FNV-64 of the JSON of the case."
 
 func genAttempt(t *rapid.T, allowCtxEnd bool) Attempt {
 	var a Attempt
@@ -131,6 +131,18 @@ func genC11(t *rapid.T) Script {
 			sc.DeadlineMs = 3_600_000 // far beyond every scripted wait; only the hanging read reaches it
 		}
 	}
+	if stats.Pct(t, "defaultvalidator") < 30 {
+		sc.DefaultValidator = true
+	}
+	for i := range sc.Attempts {
+		if a := &sc.Attempts[i]; a.Kind == "stream" && stats.Pct(t, "oddresponse") < 12 {
+			if rapid.Bool().Draw(t, "oddstatus") {
+				a.Status = stats.From(t, []int{204, 301, 404, 500, 503, 201}, "status")
+			} else {
+				a.CT = stats.From(t, []string{"text/event-stream; charset=utf-8", "text/event-stream;charset=UTF-8", "TEXT/Event-Stream", "none", "text/plain", "application/json", "text/html; charset=utf-8", "application/x-ndjson; text/events"}, "ct")
+			}
+		}
+	}
 	if stats.Pct(t, "ctxcause") < 25 {
 		// a request context that carries a cancellation cause; mostly with a transport that reports
 		// the cause instead of ctx.Err(), as net/http's does since Go 1.23
@@ -205,6 +217,11 @@ func expect(sc Script) expectation {
 		}
 		a := sc.Attempts[k]
 		var cause string
+		if a.Kind == "stream" && sc.rejected(a) {
+			e.classes = append(e.classes, fmt.Sprintf("refused-response:status=%d,ct=%q", a.Status, a.CT))
+			e.final = "reject"
+			return e
+		}
 		switch a.Kind {
 		case "neterr":
 			cause = "net" + a.ErrKind
